@@ -69,6 +69,15 @@ def info_valid(ctx, rule="INFO-VALID"):
             cn, ca = call_of(S, c[2][0])
             if cn and cn.endswith("RangeInclusive::<Idx>::new") and ca == ["*p1.value_range@Some.0.0", "*p1.value_range@Some.0.1"]:
                 rc.append(c)
+    for L in lifted_closures(prog, f, S):
+        # the same spelling inside a closure handed to value_range.is_some_and / map_or
+        if not (L.param and "p1.value_range@Some.0" in L.param):
+            continue
+        for b, t in L.fn.calls():
+            if cname(prog, t).endswith("RangeInclusive::<Idx>::contains") and "p2@Int.0" in L.val(t["args"][1]):
+                cn, ca = call_of(L.SC, L.SC.val(t["args"][0]))
+                if cn and cn.endswith("RangeInclusive::<Idx>::new") and [L.lift(x).lstrip("&*") for x in ca] == ["p1.value_range@Some.0.0", "p1.value_range@Some.0.1"]:
+                    rc.append(t)
     if rc:
         checks[0] = ("range minimum", True)
         checks[1] = ("range maximum", True)
